@@ -623,8 +623,12 @@ class printcore():
             self.clear = True
             return
         if self.resendfrom < self.lineno and self.resendfrom > -1:
-            self._send(self.sentlines[self.resendfrom], self.resendfrom, False)
-            self.resendfrom += 1
+            # Advance before sending: a new resend request for this very
+            # line may be read as soon as it is written and must not be
+            # overwritten by the increment
+            lineno = self.resendfrom
+            self.resendfrom = lineno + 1
+            self._send(self.sentlines[lineno], lineno, False)
             return
         self.resendfrom = -1
         if not self.priqueue.empty():
